@@ -9,7 +9,7 @@ for d in seeded/C*-[1-6]; do
   id=$(basename $d); prop=${id%-*}
   checks=$(/venv/bin/python -c "import json,sys; m=json.load(open('$d/meta.json')); print(' '.join(c for c,v in m['checks'].items() if 'rc=1' in v))")
   echo "$prop /verif/$d $out/$id.json $checks"
-done | xargs -P ${PAR:-3} -L 1 bash -c 'p=$0; d=$1; o=$2; shift 3; timeout 7200 /verif/tools/eval_seeded.py $p $d "$@" > $o 2>$o.err'
+done | xargs -P ${PAR:-3} -L 1 bash -c 'p=$0; d=$1; o=$2; shift 2; timeout 7200 /verif/tools/eval_seeded.py $p $d "$@" > $o 2>$o.err'
 /venv/bin/python - "$out" <<'PY'
 import json, glob, sys, os
 for f in sorted(glob.glob(os.path.join(sys.argv[1], '*.json'))):
